@@ -4,20 +4,20 @@ From TL Require Import Lib.Base Lib.GenTypes Gen.OrchHistGen Model.OrchHist Mode
 
 Definition x_dirs : list (nat * list nat) := [(0, [0; 1; 2; 3]); (1, [0; 1]); (2, [2; 3])].
 Definition x_fs : fsys := [(0, 0); (1, 1); (2, 2); (3, 3)].
-Definition only_api : oquirks := Build_oquirks false false false true.
-Definition only_dry10 : oquirks := Build_oquirks true false false false.
+Definition only_api : oquirks := Build_oquirks false false false false true.
+Definition only_dry10 : oquirks := Build_oquirks true false false false false.
 
 (* Linter.lint(file) returns no finalize() findings, `thailint <cmd> file` does *)
 Theorem C10_api_file_refuted :
-  sym_cli [] [] x_dirs only_api x_fs [0] [] <> [sym_api [] [] x_dirs only_api x_fs (TFile 0)]
-  /\ sym_cli [] [] x_dirs orch_actual x_fs [0] [] <> [sym_api [] [] x_dirs orch_actual x_fs (TFile 0)].
+  sym_cli [] [] 9 x_dirs only_api x_fs [0] [] <> [sym_api [] [] 9 x_dirs only_api x_fs (TFile 0)]
+  /\ sym_cli [] [] 9 x_dirs orch_actual x_fs [0] [] <> [sym_api [] [] 9 x_dirs orch_actual x_fs (TFile 0)].
 Proof. split; vm_compute; discriminate. Qed.
 
 (* two directory arguments: the second finalize() reports the first directory's blocks again, the library API on
    each directory does not *)
 Theorem C10_cli_two_dirs_refuted :
-  sym_cli [] [] x_dirs only_dry10 x_fs [] [(1, [0; 1]); (2, [2; 3])]
-  <> map (sym_api [] [] x_dirs only_dry10 x_fs) [TDir 1 [0; 1]; TDir 2 [2; 3]]
-  /\ sym_cli [] [] x_dirs orch_actual x_fs [] [(1, [0; 1]); (2, [2; 3])]
-  <> map (sym_api [] [] x_dirs orch_actual x_fs) [TDir 1 [0; 1]; TDir 2 [2; 3]].
+  sym_cli [] [] 9 x_dirs only_dry10 x_fs [] [(1, [0; 1]); (2, [2; 3])]
+  <> map (sym_api [] [] 9 x_dirs only_dry10 x_fs) [TDir 1 [0; 1]; TDir 2 [2; 3]]
+  /\ sym_cli [] [] 9 x_dirs orch_actual x_fs [] [(1, [0; 1]); (2, [2; 3])]
+  <> map (sym_api [] [] 9 x_dirs orch_actual x_fs) [TDir 1 [0; 1]; TDir 2 [2; 3]].
 Proof. split; vm_compute; discriminate. Qed.
